@@ -66,11 +66,11 @@ def expected_events(stmts: list, cls: str, ns: list | None = None, nd: bool = Fa
     return out
 
 
-def impl_parse_flat(data: bytes):
-    """parse_jelly_flat on bytes -> (end, [event tokens]) with literals normalised."""
+def impl_parse_flat(data: bytes, inp=None):
+    """parse_jelly_flat on bytes (or on a prepared binary file object) -> (end, [event tokens]) with literals normalised."""
     evs, end = [], "E"
     try:
-        for item in gparse.parse_jelly_flat(io.BytesIO(data)):
+        for item in gparse.parse_jelly_flat(io.BytesIO(data) if inp is None else inp):
             if isinstance(item, gs.Prefix):
                 evs.append(event_tok(item))
             else:
